@@ -19,10 +19,10 @@ import (
 type c19RuleCase struct {
 	R refRules `json:"-"`
 	// JSON-friendly copy
-	Required, AllowWS                                     bool
-	Match                                                 string
+	Required, AllowWS                                              bool
+	Match                                                          string
 	MinLen, MaxLen, MinLetters, MinLower, MinUpper, MinNum, MinSym int
-	S                                                     string
+	S                                                              string
 }
 
 func (c c19RuleCase) rules() (defaults.Rules, refRules) {
@@ -113,8 +113,8 @@ type c19Field struct {
 }
 
 type c19Req struct {
-	Fields []c19Field `json:"fields"` // in submission order; duplicates allowed
-	RawJSON string    `json:"raw_json,omitempty"`
+	Fields  []c19Field `json:"fields"` // in submission order; duplicates allowed
+	RawJSON string     `json:"raw_json,omitempty"`
 }
 
 type c19Case struct {
